@@ -136,6 +136,17 @@ let handler r =
           (match res with Ok v -> put_f v | _ -> ());
           put_w "|"
         end) results
+    end else if op = "glvec" then begin
+      (* Integrate_Gauss_Legendre(function_values, roots_and_weights) *)
+      let fv = list r in let rows = table r in
+      (match gl_sum_rows fops fv rows with Ok v -> put_f v | Exit -> put_w "EXIT" | OOB -> put_w "OOB" | Fuel -> put_w "FUEL")
+    end else if op = "glfun" then begin
+      (* Integrate_Gauss_Legendre(func, roots_and_weights) *)
+      let rows = table r in
+      let e = parse_fexpr r in
+      let n = ref 0 in
+      (match gl_fun_rows fops (fun x -> incr n; Ok (eval_fexpr e [| x; 0.0; 0.0; 0.0 |])) rows with
+       | Ok v -> put_f v; put_i !n | Exit -> put_w "EXIT" | OOB -> put_w "OOB" | Fuel -> put_w "FUEL")
     end else if op = "preinit" then begin
       (* the call made before main, then the same call made from main: the model's process with one call in each phase *)
       let op = word r in
